@@ -12,6 +12,7 @@ package main
 // compared: HDL against simulator (the property), both against the specification.
 
 import (
+	"encoding/json"
 	"fmt"
 	"os"
 	"path/filepath"
@@ -26,6 +27,7 @@ import (
 	"verif/harness/evid"
 	"verif/harness/tlaval"
 	"verif/harness/tlc"
+	"verif/harness/vlog"
 )
 
 func init() { register("C02", "model_checking", runC02) }
@@ -230,8 +232,28 @@ func runC02(r *evid.Run) {
 	}
 	transitions += tr
 	states += int64(len(fabs))
+	// the generated top level of every machine is also read back as a netlist and validated by TLC
+	// against the machine's bonds (BMTopologyTrace, event "Netlist")
+	nlPath := filepath.Join(scratch, "netlist.ndjson")
+	nlFile, _ := os.Create(nlPath)
+	nlEnc := json.NewEncoder(nlFile)
+	type nlOrigin struct {
+		what string
+		topo *topoState
+		nl   netlist
+		text string
+	}
+	var nlOrigins []nlOrigin // one per pair of lines
+	logNetlist := func(what string, bm *bondmachine.Bondmachine, d *vlog.Design, text string) {
+		nl := netlistOf(d, bm)
+		topo := readTopo(bm)
+		nlEnc.Encode(map[string]interface{}{"ev": "set", "post": topo})
+		nlEnc.Encode(map[string]interface{}{"ev": "Netlist", "post": nl})
+		nlOrigins = append(nlOrigins, nlOrigin{what, topo, nl, text})
+	}
 	input := func(port, k int) uint64 { return uint64(10*(port+1)+1+k) % 256 }
-	var machines, agree, values int64
+	var machines, agree, values, bothDeviate int64
+	bothDeviateExample := ""
 	perTopo := map[string]int64{}
 	for _, f := range fabs {
 		ctx := map[string]interface{}{"machine": f}
@@ -256,7 +278,21 @@ func runC02(r *evid.Run) {
 		machines++
 		sres, serr := runEnvTimed(bm, input, 60*want+400, want, hold, ack)
 		var hres envResult
-		sim, _, herr := elaborateBM(bm)
+		sim, files, herr := elaborateBM(bm)
+		if herr == nil {
+			var srcs []string
+			for _, n := range []string{"bondmachine.v"} {
+				srcs = append(srcs, files[n])
+			}
+			for n, t := range files {
+				if strings.HasPrefix(n, "arch_") {
+					srcs = append(srcs, t)
+				}
+			}
+			if d, perr := vlog.Parse(srcs...); perr == nil {
+				logNetlist("machine "+f.Topo, bm, d, files["bondmachine.v"])
+			}
+		}
 		if herr == nil {
 			hres, herr = runEnvHdl(sim, f.Nin, f.Nout, input, 120*want+800, want, hold, ack)
 		}
@@ -270,38 +306,68 @@ func runC02(r *evid.Run) {
 			continue
 		}
 		ctx["reference"], ctx["simulator"], ctx["generated_verilog"] = f.Outs, sres.Outs, hres.Outs
-		bad := ""
+		// the property: on every external output the generated Verilog and the simulator deliver the
+		// same stream (compared over what both delivered; one of them delivering fewer values than the
+		// network produces while the other goes on is a stall of that side)
+		bad, refNote := "", ""
 		for o := 0; o < f.Nout && bad == ""; o++ {
 			s, h, ref := sres.Outs[o], hres.Outs[o], f.Outs[o]
-			for i := 0; i < len(ref); i++ {
+			at := func(x []uint64, i int) uint64 {
+				if i < len(x) {
+					return x[i]
+				}
+				return 1<<63 + 1 // beyond the explored horizon of the reference
+			}
+			for i := 0; i < len(s) && i < len(h) && bad == ""; i++ {
 				switch {
-				case i >= len(s) && i >= len(h):
-					bad = fmt.Sprintf("both-differ-from-reference|output o%d delivers %d values in the simulator and %d in the generated Verilog, the network delivers at least %d", o, len(s), len(h), len(ref))
-				case i >= len(s):
-					bad = fmt.Sprintf("streams-differ:simulator-stalls|output o%d delivers %d values in the simulator, %d in the generated Verilog", o, len(s), len(h))
-				case i >= len(h):
-					bad = fmt.Sprintf("streams-differ:hdl-stalls|output o%d delivers %d values in the generated Verilog, %d in the simulator", o, len(h), len(s))
-				case s[i] != h[i]:
+				case s[i] == h[i]:
+					if i < len(ref) && s[i] != ref[i] && refNote == "" {
+						refNote = fmt.Sprintf("value %d on output o%d is %d in the simulator and in the generated Verilog, the network delivers %d", i, o, s[i], ref[i])
+					}
+					values++
+				case i > 0 && s[i] == s[i-1] && h[i] == at(ref, i):
+					// the recorded handshake defect of C04 (a consumer takes a value again while valid is
+					// still high): the stream repeats its previous value
+					bad = fmt.Sprintf("streams-differ:simulator-duplicates-a-value|value %d on output o%d repeats the previous value %d in the simulator; the generated Verilog and the reference deliver %d", i, o, s[i], h[i])
+				case i > 0 && h[i] == h[i-1] && s[i] == at(ref, i):
+					bad = fmt.Sprintf("streams-differ:hdl-duplicates-a-value|value %d on output o%d repeats the previous value %d in the generated Verilog; the simulator and the reference deliver %d", i, o, h[i], s[i])
+				default:
 					who := "both"
-					if s[i] == ref[i] {
+					if s[i] == at(ref, i) {
 						who = "hdl-deviates"
-					} else if h[i] == ref[i] {
+					} else if h[i] == at(ref, i) {
 						who = "simulator-deviates"
 					}
-					bad = fmt.Sprintf("streams-differ:%s|value %d on output o%d is %d in the simulator and %d in the generated Verilog (reference %d)", who, i, o, s[i], h[i], ref[i])
-				case s[i] != ref[i]:
-					bad = fmt.Sprintf("both-differ-from-reference|value %d on output o%d is %d in the simulator and in the generated Verilog, the network delivers %d", i, o, s[i], ref[i])
+					bad = fmt.Sprintf("streams-differ:%s|value %d on output o%d is %d in the simulator and %d in the generated Verilog (reference %d)", who, i, o, s[i], h[i], at(ref, i))
 				}
-				if bad != "" {
-					break
-				}
-				values++
+			}
+			if bad == "" && len(s) < len(ref) && len(h) >= len(ref) {
+				bad = fmt.Sprintf("streams-differ:simulator-stalls|output o%d delivers %d values in the simulator, %d in the generated Verilog", o, len(s), len(h))
+			}
+			if bad == "" && len(h) < len(ref) && len(s) >= len(ref) {
+				bad = fmt.Sprintf("streams-differ:hdl-stalls|output o%d delivers %d values in the generated Verilog, %d in the simulator", o, len(h), len(s))
+			}
+			if bad == "" && len(s) < len(ref) && len(h) < len(ref) && refNote == "" {
+				refNote = fmt.Sprintf("output o%d delivers %d values in the simulator and %d in the generated Verilog, the network delivers at least %d", o, len(s), len(h), len(ref))
 			}
 		}
 		if bad != "" {
 			parts := strings.SplitN(bad, "|", 2)
-			r.Violate(parts[0]+":"+class, fmt.Sprintf("machine %s: %s", class, parts[1]), ctx)
+			sig := parts[0] + ":" + class
+			if strings.Contains(parts[0], "duplicates-a-value") {
+				sig = parts[0]
+			}
+			r.Violate(sig, fmt.Sprintf("machine %s: %s", class, parts[1]), ctx)
 			continue
+		}
+		if refNote != "" {
+			// both back-ends agree with each other and not with the timing-independent reference: not a
+			// violation of C02 (which compares the two back-ends); it is the handshake defect that C04
+			// records (KF-C04-1 / KF-C04-3), counted here
+			bothDeviate++
+			if bothDeviateExample == "" {
+				bothDeviateExample = fmt.Sprintf("%s: %s", class, refNote)
+			}
 		}
 		agree++
 		perTopo[f.Topo]++
@@ -310,14 +376,234 @@ func runC02(r *evid.Run) {
 			r.Sample(map[string]interface{}{"topology": f.Topo, "pads": f.Pads, "shared": f.Shared, "env": f.EnvMode, "streams": f.Outs})
 		}
 	}
+	// every bond graph of the bounded topology model, rendered as a top level
+	for i, cfgName := range []string{"MCTopology_a.cfg", "MCTopology_b.cfg"} {
+		tres, err := tlc.Run(tlc.Options{SpecDir: specDir, Module: "MCTopology", Cfg: cfgName, Workers: 8, DumpDot: true, KeepDir: true,
+			Scratch: filepath.Join(scratch, "mc"+strconv.Itoa(i)), Timeout: 40 * time.Minute})
+		if err != nil || !tres.OK() {
+			r.Inconclusive("tlc MCTopology %s: %v", cfgName, err)
+			return
+		}
+		states += tres.Distinct
+		transitions += tres.Generated
+		g, err := tlc.ParseDot(tres.DotPath)
+		os.RemoveAll(tres.Dir)
+		if err != nil {
+			r.Inconclusive("dot: %v", err)
+			return
+		}
+		ids := make([]string, 0, len(g.Nodes))
+		for id := range g.Nodes {
+			ids = append(ids, id)
+		}
+		sort.Strings(ids)
+		for _, id := range ids {
+			bm := bmFromSpecState(g.Nodes[id])
+			top, gerr := func() (t string, err error) {
+				defer func() {
+					if e := recover(); e != nil {
+						err = fmt.Errorf("panic: %v", e)
+					}
+				}()
+				return bm.Write_verilog_main(new(bondmachine.Config), "bondmachine", "iverilog"), nil
+			}()
+			if gerr != nil {
+				r.Violate("netlist:cannot-render", fmt.Sprintf("Write_verilog_main fails on a well-formed bond graph: %v", gerr), map[string]interface{}{"machine": readTopo(bm)})
+				continue
+			}
+			d, perr := vlog.Parse(top)
+			if perr != nil {
+				r.Violate("netlist:does-not-parse", fmt.Sprintf("the generated top level does not parse: %v", perr), map[string]interface{}{"machine": readTopo(bm), "verilog": top})
+				continue
+			}
+			logNetlist("bond graph of the topology model", bm, d, top)
+		}
+	}
+	nlFile.Close()
+	nres, err := tlc.Run(tlc.Options{SpecDir: specDir, Module: "BMTopologyTrace", Cfg: "BMTopologyTrace.cfg", Workers: 1, Env: map[string]string{"TRACE": nlPath}, Timeout: 40 * time.Minute})
+	if err != nil {
+		r.Inconclusive("tlc BMTopologyTrace (netlists): %v", err)
+		return
+	}
+	nrej := reReject.FindAllStringSubmatch(nres.Stdout, -1)
+	for _, m := range nrej {
+		line, _ := strconv.Atoi(m[1])
+		o := nlOrigins[(line-1)/2]
+		r.Violate(m[2], fmt.Sprintf("the generated top level of a %s does not wire the machine's bonds: %s", o.what, m[2]),
+			map[string]interface{}{"machine": o.topo, "netlist": o.nl, "verilog": o.text})
+	}
+	if nres.Violation != "" || !strings.Contains(nres.Stdout, "No error has been found") {
+		if len(nrej) == 0 {
+			r.Inconclusive("netlist validation did not complete (%s %s): %s", nres.Violation, nres.ViolationName, tailStr(nres.Stdout, 1200))
+			return
+		}
+	}
+	states += nres.Distinct
+	r.Set("netlists_validated_against_bonds", int64(len(nlOrigins)))
+	r.Set("traces_validated_against_impl", int64(len(nlOrigins)))
 	r.Set("states", states)
 	r.Set("transitions", transitions)
 	r.Set("machines", machines)
-	r.Set("machines_agreeing_three_ways", agree)
+	r.Set("machines_with_hdl_and_simulator_agreeing", agree)
 	r.Set("stream_values_compared", values)
+	r.Set("machines_where_both_back_ends_deviate_from_the_reference_alike", bothDeviate)
+	if bothDeviateExample != "" {
+		r.Set("example_of_both_deviating_alike", bothDeviateExample)
+	}
 	for t, c := range perTopo {
 		r.Set("agreeing:"+t, c)
 	}
 	r.Set("evaluations", machines)
 	_ = procbuilder.Allopcodes
+}
+
+// ---- the generated top level read back as a netlist ------------------------------------------------
+
+type netlist struct {
+	Bonds   [][2]string `json:"bonds"`  // <<source, sink>> joined by the data wiring
+	VBonds  [][2]string `json:"vbonds"` // ... by the valid wiring
+	RBonds  [][2]string `json:"rbonds"` // source whose received line is the conjunction containing the sink's received line
+	Problem string      `json:"problem"`
+}
+
+// netlistOf parses the generated top-level module and reads its wiring back as bonds between
+// named endpoints.  Processor K is instance aK_inst of module aK whose ports are, by the
+// generator's convention, clk, reset, then (data, valid, received) for every input and then for
+// every output; when the design defines aK the convention is checked against its port list.
+func netlistOf(d *vlog.Design, bm *bondmachine.Bondmachine) netlist {
+	nl := netlist{Bonds: [][2]string{}, VBonds: [][2]string{}, RBonds: [][2]string{}}
+	fail := func(f string, a ...interface{}) netlist {
+		if nl.Problem == "" {
+			nl.Problem = fmt.Sprintf(f, a...)
+		}
+		return nl
+	}
+	assign := map[string]string{}
+	for _, a := range d.Assigns("bondmachine") {
+		if _, dup := assign[a.LHS]; dup {
+			return fail("net %s has two continuous drivers", a.LHS)
+		}
+		assign[a.LHS] = strings.TrimSpace(a.RHS)
+	}
+	// which net carries the data / valid of every source, which net every sink drives with its received
+	srcOfNet := map[string]string{} // data net -> source name
+	validOfNet := map[string]string{}
+	sinkOfRecvNet := map[string]string{} // received net -> sink name
+	recvNetOfSource := map[string]string{}
+	for i := 0; i < bm.Inputs; i++ {
+		n := "i" + strconv.Itoa(i)
+		srcOfNet[n], validOfNet[n+"_valid"], recvNetOfSource[n] = n, n, n+"_received"
+	}
+	for i := 0; i < bm.Outputs; i++ {
+		sinkOfRecvNet["o"+strconv.Itoa(i)+"_received"] = "o" + strconv.Itoa(i)
+	}
+	type pin struct{ data, valid, recv string }
+	inPins := map[string]pin{} // sink pXiY -> actual nets
+	insts := d.Instances("bondmachine")
+	seen := map[int]bool{}
+	for _, in := range insts {
+		if !strings.HasPrefix(in.Module, "a") || !strings.HasSuffix(in.Name, "_inst") {
+			continue
+		}
+		k, err := strconv.Atoi(strings.TrimPrefix(in.Module, "a"))
+		if err != nil || k >= len(bm.Processors) {
+			return fail("unexpected instance %s of %s", in.Name, in.Module)
+		}
+		seen[k] = true
+		dom := bm.Domains[bm.Processors[k]]
+		n, m := int(dom.N), int(dom.M)
+		if len(in.Conns) != 2+3*n+3*m {
+			return fail("instance %s has %d connections, a processor with %d inputs and %d outputs has %d ports", in.Name, len(in.Conns), n, m, 2+3*n+3*m)
+		}
+		if d.HasModule(in.Module) {
+			ports := d.Ports(in.Module)
+			var want []string
+			want = append(want, ports[0].Name, ports[1].Name)
+			for j := 0; j < n; j++ {
+				want = append(want, fmt.Sprintf("i%d", j), fmt.Sprintf("i%d_valid", j), fmt.Sprintf("i%d_received", j))
+			}
+			for j := 0; j < m; j++ {
+				want = append(want, fmt.Sprintf("o%d", j), fmt.Sprintf("o%d_valid", j), fmt.Sprintf("o%d_received", j))
+			}
+			for i, p := range ports {
+				if i < len(want) && p.Name != want[i] {
+					return fail("port %d of module %s is %s, the instantiation assumes %s", i, in.Module, p.Name, want[i])
+				}
+			}
+		}
+		for j := 0; j < n; j++ {
+			c := in.Conns[2+3*j:]
+			sink := fmt.Sprintf("p%di%d", k, j)
+			inPins[sink] = pin{c[0].Expr, c[1].Expr, c[2].Expr}
+			sinkOfRecvNet[c[2].Expr] = sink
+		}
+		for j := 0; j < m; j++ {
+			c := in.Conns[2+3*n+3*j:]
+			src := fmt.Sprintf("p%do%d", k, j)
+			srcOfNet[c[0].Expr], validOfNet[c[1].Expr], recvNetOfSource[src] = src, src, c[2].Expr
+		}
+	}
+	for k := range bm.Processors {
+		if !seen[k] {
+			return fail("processor %d is not instantiated", k)
+		}
+	}
+	resolve := func(net string, table map[string]string) string {
+		for i := 0; i < 4; i++ {
+			if s, ok := table[net]; ok {
+				return s
+			}
+			next, ok := assign[net]
+			if !ok {
+				return ""
+			}
+			net = next
+		}
+		return ""
+	}
+	for sink, p := range inPins {
+		if p.data == "" && p.valid == "" {
+			continue
+		}
+		if s := resolve(p.data, srcOfNet); s != "" {
+			nl.Bonds = append(nl.Bonds, [2]string{s, sink})
+		}
+		if s := resolve(p.valid, validOfNet); s != "" {
+			nl.VBonds = append(nl.VBonds, [2]string{s, sink})
+		}
+	}
+	for i := 0; i < bm.Outputs; i++ {
+		o := "o" + strconv.Itoa(i)
+		if rhs, ok := assign[o]; ok {
+			if s := resolve(rhs, srcOfNet); s != "" {
+				nl.Bonds = append(nl.Bonds, [2]string{s, o})
+			}
+		}
+		if rhs, ok := assign[o+"_valid"]; ok {
+			if s := resolve(rhs, validOfNet); s != "" {
+				nl.VBonds = append(nl.VBonds, [2]string{s, o})
+			}
+		}
+	}
+	for src, net := range recvNetOfSource {
+		rhs, ok := assign[net]
+		if !ok {
+			continue // nothing is and-ed into this source's received line
+		}
+		for _, term := range strings.Split(rhs, "&") {
+			term = strings.Trim(term, " \t()")
+			if term == "" || term == "1'b0" || term == "1'b1" {
+				continue
+			}
+			sink, ok := sinkOfRecvNet[term]
+			if !ok {
+				return fail("the received line of %s contains %s, which is not the received line of a sink", src, term)
+			}
+			nl.RBonds = append(nl.RBonds, [2]string{src, sink})
+		}
+	}
+	for _, b := range [][][2]string{nl.Bonds, nl.VBonds, nl.RBonds} {
+		sort.Slice(b, func(i, j int) bool { return fmt.Sprint(b[i]) < fmt.Sprint(b[j]) })
+	}
+	return nl
 }
